@@ -218,7 +218,11 @@ GHOST static void gj_note_order(int target, int idx_blocked) {
   if (idx_blocked) j_joiner_first++; else j_target_first++;
 }
 
+extern fiber_t* rt_fibers[];
 static void join_setup(void) {
+  // the join/detach hand-shake words of every target are the watched object (targeted delay / stall strategies)
+  for (int i = 0; i < g_case.n_fibers; i++)
+    if (g_case.n_ops[i] > 0 && !strcmp(g_case.ops[i][0].name, "target") && rt_fibers[i]) vs_watch((void*)&rt_fibers[i]->result, 32);
   // class "contenders on a finished target": the loser keeps using a handle the winner's join has already let the
   // library reclaim (the caller's own risk) - tolerate those accesses, the memory is never reused inside an execution
   if (cfg_get("allow_freed", 0)) vs_heap_allow_freed(1);
